@@ -107,6 +107,40 @@ def check(rep, tier, seed):
         if o != want:
             rep.fail(kind="property-oracle", cls="chunking:text-write:" + ("schedule" if want != "ERR" else "fault"), case=c[:300], observed=o[:200], expected=want[:200],
                      detail="text write through a short-write/failing sink")
+    # ------------------------------------------------------------------ the binary writing to a stdout that fails
+    # a consumer that has gone away (closed pipe: EPIPE at offset 0, or after the first pipe buffer) and a full device: the
+    # process must fail, not report success with nothing or a part written
+    import subprocess as _sp
+    from common import sfs_path, ENV, text_spectrum as _ts
+    big_txt = _ts([300, 300], [str(i % 97) for i in range(90000)])
+    small_txt = _ts([3], ["1", "2", "3"])
+    small_vcf = render_vcf(["a", "b"], [["0/1", "1/1"], ["0/0", "0/1"]])
+    for argv, data, label in ((["view"], small_txt, "view text"), (["view", "-O", "npy"], small_txt, "view npy"), (["fold"], small_txt, "fold"),
+                              (["create"], small_vcf, "create"), (["view", "--precision", "9"], big_txt, "view of 90000 entries")):
+        for mode in ("closed-pipe", "reader-leaves-early", "/dev/full"):
+            if mode == "/dev/full":
+                with open("/dev/full", "wb") as full:
+                    p_ = _sp.run([sfs_path()] + argv, input=data, stdout=full, stderr=_sp.PIPE, env=ENV)
+                rc_, se_ = p_.returncode, p_.stderr
+            else:
+                p_ = _sp.Popen([sfs_path()] + argv, stdin=_sp.PIPE, stdout=_sp.PIPE, stderr=_sp.PIPE, env=ENV)
+                if mode == "closed-pipe":
+                    p_.stdout.close()
+                try:
+                    p_.stdin.write(data); p_.stdin.close()
+                except OSError:
+                    pass
+                if mode == "reader-leaves-early":
+                    if len(data) < 100000:
+                        p_.stderr.close(); p_.stdout.close(); p_.wait()
+                        continue
+                    p_.stdout.read(10); p_.stdout.close()
+                se_ = p_.stderr.read(); rc_ = p_.wait()
+            rep.count("stdout-failure", "%s, stdout %s" % (label, mode), True)
+            if rc_ == 0 or rc_ == 101 or rc_ < 0:
+                rep.fail(kind="property-oracle", cls="chunking:stdout-failure:" + mode, case="%s with stdout %s" % (label, mode), argv=["sfs"] + argv,
+                         stdin=data.decode(errors="replace")[:2000], observed={"rc": rc_, "stderr": se_.decode(errors="replace")[-200:]}, expected="a non-zero exit status (an error, not a panic or signal)",
+                         detail="the writer failed (%s) before all output was written, yet the run did not end in an error" % mode)
     # ------------------------------------------------------------------ call sets through the hook
     d = os.path.join(WORK, "c18")
     os.makedirs(d, exist_ok=True)
